@@ -1466,9 +1466,24 @@ func (c *Ctx) seqIndex() {
 			if !c.isElemAt(fa, s, r0, h, r1, sv) {
 				problems = append(problems, "the value returned ("+r0.key+") is not the slot at the position returned")
 			}
-			// negative / oversize indices are honoured only with their option
-			if okKnown && okv {
-				// success implies a non-nil value (checked by callers that must not treat nil slots as found)
+			// the found flag says exactly "the slot holds a non-nil value": nothing else (a typed nil
+			// pointer, a zero struct, ...) counts as vacant - Remove, Reset, Defrag and Traverse read it
+			for _, pol := range []bool{true, false} {
+				s2 := s
+				if okKnown {
+					if okv != pol {
+						continue
+					}
+				} else {
+					s2 = s.clone()
+					fa.assumeVal(s2, ret.Results[2], pol)
+					if s2.dead {
+						continue
+					}
+				}
+				if v, known := fa.nonNil(s2, ret.Results[0]); !known || v != pol {
+					problems = append(problems, fmt.Sprintf("the found flag can be %v without the slot being known %s: it must mean exactly 'the slot is not nil'", pol, map[bool]string{true: "non-nil", false: "nil"}[pol]))
+				}
 			}
 		}
 	}
